@@ -69,7 +69,20 @@ func (c *caseCfg) opLines() []string {
 		ops = append(ops, "quota "+proto.Enc(q.id)+" kind="+q.kind+" url="+u)
 	}
 	for _, f := range c.flows {
-		ops = append(ops, "flow "+proto.Enc(f.name)+" kind="+f.kind)
+		fl := "flow " + proto.Enc(f.name) + " kind=" + f.kind
+		if len(f.methods) > 0 {
+			fl += " m=" + strings.Join(f.methods, ",")
+		}
+		if len(f.headers) > 0 {
+			fl += " h=" + encPairs(f.headers)
+		}
+		if len(f.status) > 0 {
+			fl += " st=" + strings.Join(f.status, ",")
+		}
+		if len(f.query) > 0 {
+			fl += " q=" + encPairs(f.query)
+		}
+		ops = append(ops, fl)
 		for _, p := range f.procs {
 			ops = append(ops, "proc "+proto.Enc(f.name)+" "+proto.Enc(p[0])+" "+proto.Enc(p[1]))
 		}
@@ -83,6 +96,60 @@ func (c *caseCfg) opLines() []string {
 		}
 	}
 	return ops
+}
+
+func encPairs(ps [][2]string) string {
+	var xs []string
+	for _, p := range ps {
+		if p[1] == "\x00" {
+			xs = append(xs, p[0])
+		} else {
+			xs = append(xs, p[0]+":"+p[1])
+		}
+	}
+	return strings.Join(xs, ",")
+}
+
+// genFilter: with some probability give a user flow method / header / status / query constraints
+func genFilter(r *prng.R, f *flowDef) {
+	if !r.Chance(35) {
+		return
+	}
+	if r.Chance(60) {
+		f.methods = [][]string{{"GET"}, {"POST"}, {"GET", "POST"}, {"PUT"}}[r.Intn(4)]
+	}
+	if r.Chance(25) {
+		f.headers = [][2]string{{"x-tag", prng.Pick(r, []string{"a", "b"})}}
+		if r.Chance(30) {
+			f.headers = append(f.headers, [2]string{"x-tag", "c"})
+		}
+	}
+	if r.Chance(25) {
+		f.status = [][]string{{"200"}, {"404"}, {"200", "500"}}[r.Intn(3)]
+	}
+	if r.Chance(20) {
+		if r.Bool() {
+			f.query = [][2]string{{"k", "\x00"}}
+		} else {
+			f.query = [][2]string{{"k", prng.Pick(r, []string{"v1", "v2"})}}
+		}
+	}
+}
+
+// genAttrs: the transaction attributes the filters look at (words appended to a txn line)
+func genAttrs(r *prng.R) string {
+	if r.Chance(40) {
+		return ""
+	}
+	s := " m=" + prng.Pick(r, []string{"GET", "GET", "POST", "PUT"}) + " rm=" + prng.Pick(r, []string{"GET", "GET", "POST"}) +
+		" st=" + prng.Pick(r, []string{"200", "200", "404", "500"})
+	if r.Chance(50) {
+		s += " h=x-tag:" + prng.Pick(r, []string{"a", "b", "c"})
+	}
+	if r.Chance(50) {
+		s += " q=k:" + prng.Pick(r, []string{"v1", "v2"})
+	}
+	return s
 }
 
 var sStart = endp{'S', "globalStream", "start"}
@@ -261,7 +328,9 @@ func genCase(r *prng.R, id string) proto.Case {
 	var order []string
 	for i := 0; i < nf; i++ {
 		name := fmt.Sprintf("f%d", i+1)
-		c.flows = append(c.flows, genFlow(r, name, opt))
+		fl := genFlow(r, name, opt)
+		genFilter(r, fl)
+		c.flows = append(c.flows, fl)
 		order = append(order, name)
 	}
 	if opt.malformed && nf > 1 && r.Chance(10) {
@@ -292,7 +361,7 @@ func genCase(r *prng.R, id string) proto.Case {
 		if k >= 6 {
 			dir = "res"
 		}
-		ops = append(ops, "txn dir="+dir+" o="+genOracle(r, c, dir))
+		ops = append(ops, "txn dir="+dir+" o="+genOracle(r, c, dir)+genAttrs(r))
 	}
 	return proto.Case{ID: id, Ops: ops}
 }
@@ -499,6 +568,7 @@ func genBorrowCase(r *prng.R, id string) proto.Case {
 		prng.Shuffle(r, res)
 	}
 	f2.res = res
+	genFilter(r, f2)
 	c.flows = []*flowDef{f1, f2}
 	order := []string{"f1", "f2"}
 	if r.Bool() {
@@ -526,7 +596,7 @@ func genBorrowCase(r *prng.R, id string) proto.Case {
 				}
 			}
 		}
-		ops = append(ops, "txn dir="+dir+" o="+strings.Join(items, ","))
+		ops = append(ops, "txn dir="+dir+" o="+strings.Join(items, ",")+genAttrs(r))
 	}
 	return proto.Case{ID: id, Ops: ops}
 }
